@@ -3,6 +3,7 @@ package c06
 import (
 	"fmt"
 	"sort"
+	"strconv"
 	"strings"
 	"testing"
 
@@ -14,6 +15,7 @@ import (
 	"verif/internal/gen"
 	"verif/internal/gt"
 	"verif/internal/h"
+	"verif/internal/ops"
 	"verif/internal/ref"
 )
 
@@ -25,7 +27,8 @@ type Case struct {
 	Revert  bool      `json:"revert"`
 	Names   []string  `json:"names"`
 	Class   string    `json:"class"`
-	Reroot  int       `json:"reroot,omitempty"` // > 0: the tree is first re-rooted in memory at an inner node
+	Reroot  int       `json:"reroot,omitempty"`  // > 0: the tree is first re-rooted in memory at an inner node
+	History []ops.Op  `json:"history,omitempty"` // edits applied in memory before the operation (the model is read back afterwards)
 }
 
 func treeOpts(t *rapid.T, thorough bool) gen.Opts {
@@ -108,6 +111,9 @@ func genCase(t *rapid.T, thorough bool) Case {
 	if rapid.IntRange(0, 2).Draw(t, "rerootfirst") == 0 {
 		c.Reroot = 1 + rapid.IntRange(0, 1000).Draw(t, "rerootat")
 	}
+	if rapid.IntRange(0, 4).Draw(t, "hashistory") == 2 {
+		c.History = ops.GenHistory(t, 4)
+	}
 	return c
 }
 
@@ -115,6 +121,17 @@ func check(c Case) error {
 	t, err := gt.FromModel(c.Tree)
 	if err != nil {
 		return fmt.Errorf("parser rejects the start tree: %v", err)
+	}
+	if len(c.History) > 0 {
+		// 1-4 name-preserving edits of the tree object in memory; the oracle works on the model read back
+		if t2, m2, ok, herr := ops.Replay(t, c.History); herr != nil {
+			return herr
+		} else if ok {
+			t, c.Tree = t2, m2
+			c.Reroot = 0 // the history re-roots by itself (RerootBoth needs a freshly parsed tree)
+		} else if t, err = gt.FromModel(c.Tree); err != nil {
+			return err
+		}
 	}
 	if c.Reroot > 0 {
 		rm, _, err := gt.RerootBoth(t, c.Tree, c.Reroot-1)
@@ -240,7 +257,7 @@ func lookups(c Case, t *tree.Tree, keep func(string) bool, wt []string) error {
 func TestC06Prune(t *testing.T) {
 	h.Run(t, h.Spec[Case]{
 		Property: "C06", Name: "prune", Quick: 24000, Thorough: 1600000,
-		Rule: "trees (4..12 tips, 5% up to 40/300; rooted or not, multifurcating, lengths none/all/mixed, supports or inner names) x removal sets {random, whole clade, root child, cherry, all but three, none} x revert x absent name mixed in x indexed or not; oracle = Restrict of the reference model (tips, splits, lengths, distances, supports, no single-child node) + name look-ups vs kept set; non-trivial = a suppression is forced or the root is touched",
+		Rule:  "trees (4..12 tips, 5% up to 40/300; rooted or not, multifurcating, lengths none/all/mixed, supports or inner names) x removal sets {random, whole clade, root child, cherry, all but three, none} x revert x absent name mixed in x indexed or not; oracle = Restrict of the reference model (tips, splits, lengths, distances, supports, no single-child node) + name look-ups vs kept set; non-trivial = a suppression is forced or the root is touched",
 		Gen:   genCase,
 		Check: check,
 		Classify: func(c Case) (bool, []string) {
@@ -297,7 +314,7 @@ func TestC06Prune(t *testing.T) {
 
 type CliCase struct {
 	Case
-	Mode  string      `json:"mode"` // args | file | comp
+	Mode  string      `json:"mode"`           // args | file | comp
 	More  []*ref.Node `json:"more,omitempty"` // further trees of the input stream: the first tree plus extra tips
 	First bool        `json:"more_first,omitempty"`
 	// tip file layout (mode "file"): "lines" = one name per line; "commas" = all names on one
@@ -346,6 +363,17 @@ func (c CliCase) tipFile() string {
 		text += n + "\n"
 	}
 	return text
+}
+
+// randomK: the number of tips `--random` samples, such that at least 3 tips remain in every tree
+// of the stream (which all have at least as many tips as the first one).
+func (c CliCase) randomK() int {
+	n := len(c.Tree.Tips())
+	k := 1 + len(c.Names)%(n-3)
+	if c.Revert {
+		k = 3 + len(c.Names)%(n-3)
+	}
+	return k
 }
 
 func (c CliCase) stream() []*ref.Node {
@@ -408,6 +436,9 @@ func checkCli(c CliCase) error {
 		comp += ");\n"
 		args = append(args, "-c", cli.Write(dir, "comp.nw", comp))
 	}
+	if c.Mode == "random" {
+		args = append(args, "--random", strconv.Itoa(c.randomK()), "--seed", strconv.Itoa(100+len(c.Names)))
+	}
 	if c.Revert {
 		args = append(args, "-r")
 	}
@@ -450,6 +481,25 @@ func checkCli(c CliCase) error {
 		}
 		// every tree of the stream is pruned on its own
 		keep := func(n string) bool { return given[n] == c.Revert }
+		if c.Mode == "random" {
+			// which tips go is the command's draw; how many, and what the rest looks like, is not
+			left := map[string]bool{}
+			for _, n := range after.Tips() {
+				left[n] = true
+			}
+			nt, k := len(m.Tips()), c.randomK()
+			if k > nt {
+				k = nt
+			}
+			want := nt - k
+			if c.Revert {
+				want = k
+			}
+			if len(left) != want {
+				return fmt.Errorf("tree %d of the stream: %d of %d tips remain after --random %d (revert=%v), expected %d%s", i, len(left), nt, c.randomK(), c.Revert, want, ctx)
+			}
+			keep = func(n string) bool { return left[n] }
+		}
 		if c.Mode == "comp" {
 			keep = func(n string) bool { return !inComp(n) == c.Revert }
 		}
@@ -472,9 +522,9 @@ func trim(s string) string {
 func TestC06Cli(t *testing.T) {
 	h.Run(t, h.Spec[CliCase]{
 		Property: "C06", Name: "cli", Quick: 2400, Thorough: 48000,
-		Rule: "the same trees and removal sets through `gotree prune`: tips as arguments, -f tip file (one name per line, comma-separated on one line, or one long line in which a drawn name straddles byte 4096 / 8192 / 65536), -c compared tree (tips absent from it are removed), each with and without -r, the input stream on stdin, in a file, in a gzip file or as a Nexus document (--format nexus, the compared tree too); half of the inputs are streams of 2-3 trees with different tip sets, each of which must be pruned on its own; every printed tree is compared with the induced subtree of the reference model; non-trivial = >= 1 tip removed and >= 1 multifurcation or rooted tree",
+		Rule: "the same trees and removal sets through `gotree prune`: tips as arguments, -f tip file (one name per line, comma-separated on one line, or one long line in which a drawn name straddles byte 4096 / 8192 / 65536), -c compared tree (tips absent from it are removed), --random k --seed s (the number of tips removed / kept and the induced subtree on whatever remains), each with and without -r, the input stream on stdin, in a file, in a gzip file or as a Nexus document (--format nexus, the compared tree too); half of the inputs are streams of 2-3 trees with different tip sets, each of which must be pruned on its own; every printed tree is compared with the induced subtree of the reference model; non-trivial = >= 1 tip removed and >= 1 multifurcation or rooted tree",
 		Gen: func(t *rapid.T, thorough bool) CliCase {
-			c := CliCase{Case: genCase(t, false), Mode: rapid.SampledFrom([]string{"args", "file", "comp"}).Draw(t, "mode")}
+			c := CliCase{Case: genCase(t, false), Mode: rapid.SampledFrom([]string{"args", "file", "comp", "random"}).Draw(t, "mode")}
 			if c.Mode == "args" && len(c.Names) == 0 {
 				c.Mode = "file"
 			}
